@@ -504,3 +504,11 @@ PROPS["C02"].jobs += [
 PROPS["C13"].jobs += [Job("tsm-seq-d3", tsm(0, 3), quick=(3, 450, 100), thorough=(16, 3000, 100)), Job("tsm-seq-d2", tsm(0, 2), quick=(2, 450, 100), thorough=(16, 3000, 100))]
 PROPS["C07"].jobs += [Job("tsm-seq-d3", tsm(0, 3), quick=(2, 600, 100), thorough=(16, 3000, 100))]
 PROPS["C06"].jobs += [Job("tsm-seq-d3", tsm(0, 3), quick=(2, 600, 100), thorough=(16, 3000, 100)), Job("tsm-seq-d1", tsm(0, 1), quick=(1, 600, 100), thorough=(16, 3000, 100))]
+
+
+# ---- C03 (5): a sample of real libgomp schedules (truly parallel): the OpenMP executor linked with the real runtime, differential with the sequential one
+def sched_real(dim=3):
+    return Bin("t_sched_realomp_d%d" % dim, ["props/t_sched.cpp"], {"DIM": dim, "RT": 1, "NX": 0, "REALOMP": 1}, cxxflags=["-fopenmp"], ldflags=["-fopenmp", "-lpthread"])
+
+
+PROPS["C03"].jobs += [Job("realomp-d3", sched_real(3), quick=(2, 300, 100), thorough=(8, 2000, 100), env={"OMP_WAIT_POLICY": "passive"})]
